@@ -149,6 +149,8 @@ def attempt(ctx, what, fn, detail=None):
         if type(e).__name__ == "NoSuchFile" and "_write_delta" in tb and "old_tree.get_file_revision" in tb:
             # one mechanism wherever a 0.8 / 0.9 bundle is written (write_bundle, format-1 directives)
             key = "bundle-0.9:write:unchanged-child-of-renamed-directory"
+        if isinstance(e, UnicodeDecodeError) and "_read_one_patch" in tb:
+            key = "bundle-0.9:read:wrapped-action-line-splits-utf8"
         ctx.fail(key, repr(e)[:400], d)
         return False, None
 
